@@ -119,6 +119,15 @@ theorem timerFresh_simInv : SimInv3 (fun x => x.st.cfg = Fixes.all ∧ TimerFres
       show (pollWaiter s0 x.nextWaiter).now ≤ tm.until_
       rw [e2]; exact h.2 (e1 ▸ hal) tm (by rw [← hq.1.timer]; exact htm)
     · exact h
+  clone := fun x f h => by
+    let s0 : St := { x.st with waiters := x.st.waiters ++ [{ id := x.nextWaiter, done := f }] }
+    have hq := quiet_pollWaiter s0 x.nextWaiter
+    refine ⟨hq.1.cfg.trans h.1, ?_⟩
+    intro hal tm htm
+    have e1 : (pollWaiter s0 x.nextWaiter).alive = x.st.alive := pollWaiter_alive s0 _
+    have e2 : (pollWaiter s0 x.nextWaiter).now = x.st.now := (ext_pollWaiter s0 _).now
+    show (pollWaiter s0 x.nextWaiter).now ≤ tm.until_
+    rw [e2]; exact h.2 (e1 ▸ hal) tm (by rw [← hq.1.timer]; exact htm)
 
 /-- **C07, the grace deadline** — for every behaviour script, every operation script and every race resolution: in every
     reachable state of a live job task an armed grace timer has not expired — the clock shows at most its deadline -/
